@@ -43,7 +43,8 @@ pub fn run(args: &Args) {
                     if api == "encrypt" {
                         helper::crypt::encrypt(&enc_path, &data, &password).map_err(|e| e.to_string())?;
                     } else {
-                        let from = format!("{}/case-{}.src", args.out, k);
+                        // a third of the calls encrypt a file in place (source and destination are the same path)
+                        let from = if k % 3 == 0 { enc_path.clone() } else { format!("{}/case-{}.src", args.out, k) };
                         std::fs::write(&from, &data).map_err(|e| e.to_string())?;
                         writer::xlsx::set_password(&from, &enc_path, &password).map_err(|e| format!("{:?}", e))?;
                     }
